@@ -42,12 +42,12 @@ claimed.update({
   note="Generic fake datapath (the plug-ins' own release logic is C04/C15/C03); 1 session, history <= 3 requests; concurrent teardown triggers are C10.",
   ref="DESIGN.md 6.5"),
  "C08": dict(
-  text="Bounded model checking over token atoms: parseFlowDesc/parseNet/parsePort/parseSDFFilter are executed on a flow description that is an arbitrary sequence of <= 8 (quick) / 10 (thorough) arbitrary tokens; a reference recogniser of the canonical grammar over the same tokens decides acceptance, endpoint networks, ports, protocol, orientation by source interface and the documented port workaround; refused text must keep the UE-address pre-fill. PFD management (replace on accept, rollback on every reject exit) and parseApplicationID (direction keyword, verbatim copy, tolerated bad flow) are explored on tables drawn from five flow descriptions.",
+  text="Bounded model checking over token atoms: parseFlowDesc/parseNet/parsePort/parseSDFFilter are executed on a flow description that is an arbitrary sequence of <= 8 (quick) / 10 (thorough) arbitrary tokens; a reference recogniser of the canonical grammar over the same tokens decides acceptance, endpoint networks, ports, protocol, orientation by source interface and the documented port workaround; refused text must keep the UE-address pre-fill. A byte-level harness runs the REAL strings.Fields, strings.Split and strconv.ParseUint on a flow description whose port token is 1..4 (quick) / 1..6 (thorough) arbitrary printable bytes and compares with a byte-level reference, cross-checking the contracts the token-level harnesses assume. PFD management (replace on accept, rollback on every reject exit) and parseApplicationID (direction keyword, verbatim copy, tolerated bad flow) are explored on tables drawn from five flow descriptions.",
   note="strings.Fields/Split, strconv.ParseUint, net.ParseCIDR on atoms are uninterpreted functions under their documented contracts (trusted standard library); counterexamples are inverted to concrete text and replayed natively.",
   ref="DESIGN.md 6.8"),
  "C12": dict(
   text="Bounded model checking of the sequential logic: sendPFCPRequestMessage under every loss pattern (k-th transmission answered or none, retries 0..3 quick / 0..8 thorough), handleIncomingResponse for matching/wrong/duplicate sequence numbers, handleHeartbeatRequest in every association state with every reset-channel backlog, handleAssociationSetupRequest for all 8 feature configurations x datapath up/down, getSeqNum for all counters.",
-  note="Narrowed: spacing by resp_timeout, the ticker, tryConnectToN4Peers and 'peer dead => sessions removed' are outside (Request.GetResponse is a plan stub under the engine; the native replay runs the real timer code with a peer goroutine).",
+  note="Narrowed: spacing by resp_timeout, the ticker, tryConnectToN4Peers and 'peer dead => sessions removed' are outside (the engine has no elapsed time: the real Request.GetResponse runs with a model timer that fires when no goroutine can make progress, and a peer goroutine that answers the k-th transmission through the real handleIncomingResponse; the native replay runs the same code with a 15 ms timeout).",
   ref="DESIGN.md 6.12"),
  "C13": dict(
   text="Bounded model checking of both halves. (1) handleDigestReport on a store holding an arbitrary session (1..2 PDRs of either direction, 0..2 FARs with arbitrary Apply Action): nothing is sent for unknown sessions, sessions without downlink PDR or whose downlink FAR does not ask (or does not exist); otherwise exactly one Session Report Request with the CP SEID, a fresh sequence number and the downlink PDR id. (2) The rate limiter NewDownlinkDataNotifier/Notify/shouldNotify over 3 reports (4 and 5 returned solver unknown and are not claimed) with arbitrary F-SEIDs under a symbolic strictly increasing clock and an arbitrary interval: a first report is always forwarded, two forwarded reports of one session are at least one interval apart, a report is suppressed only within one interval of a forwarded one. The report channel holds one event and is drained by a slow consumer goroutine, so a full channel must delay the limiter, never make it drop.",
@@ -92,7 +92,7 @@ claimed.update({
 })
 pending = {}
 na = {
- "C10": "every clause quantifies over goroutine interleavings of teardown triggers and bounded-time termination; a sequential SSA-to-SMT executor cannot encode Go's scheduler, select and timers (DESIGN.md 6.10)",
+ "C10": "every clause quantifies over interleavings of teardown triggers (channel close/send, select, timers, context cancellation, socket read deadlines) and over bounded-time termination; the engine explores schedules only at mutex-acquisition granularity for two goroutines (sound where shared accesses are lock-protected), which does not cover channel/select/timer interleavings of node.Serve, conn.Serve and the heartbeat monitor, and it has no notion of elapsed time (DESIGN.md 6.10, 10.7)",
 }
 props = [json.loads(l)["id"] for l in open(os.path.join(V, "properties.jsonl"))]
 for p in props:
